@@ -806,6 +806,79 @@ class World:
             sdw.h5py = h5py
         return undo
 
+    def op_concurrent_writes(self, op, r):
+        """Two caller threads, each writing its own DLISFile to its own path, interleaved by a seeded scheduler.
+
+        Real threads, but only one runs at a time: a thread hands the baton to the other one at seeded LINE EVENTS inside library
+        code (sys.settrace), so the interleaving is a function of op['switch'] (a list of line counts) alone.
+        """
+        import threading
+        parts = op['parts']                       # [{'fid':..., 'path':..., 'output_chunk_size':..., ...}, {...}]
+        switch = list(op.get('switch') or [200])
+        sems = [threading.Semaphore(0), threading.Semaphore(0)]
+        state = {'left': switch[0], 'k': 0, 'done': [False, False], 'turn': 0}
+        results = [None, None]
+        w = self
+
+        def handoff(me):
+            other = 1 - me
+            if state['done'][other]:
+                return
+            state['turn'] = other
+            sems[other].release()
+            sems[me].acquire()
+
+        def make_tracer(me):
+            def local(frame, event, arg):
+                if event == 'line':
+                    state['left'] -= 1
+                    if state['left'] <= 0:
+                        state['k'] += 1
+                        state['left'] = switch[state['k'] % len(switch)]
+                        handoff(me)
+                return local
+
+            def tracer(frame, event, arg):
+                fn = frame.f_code.co_filename
+                if 'dliswriter' in fn and not fn.startswith(HARNESS):
+                    return local
+                return None
+            return tracer
+
+        def run(me):
+            sems[me].acquire()
+            sys.settrace(make_tracer(me))
+            try:
+                p = parts[me]
+                f = w.objs['file:' + p['fid']]
+                path = os.path.join(w.scratch, p['path'])
+                kw = {k: w.codec.dec(p[k]) for k in ('input_chunk_size', 'output_chunk_size', 'from_idx', 'to_idx') if k in p}
+                kw.setdefault('output_chunk_size', 1 << 20)
+                try:
+                    f.write(path, **kw)
+                    results[me] = {'out': 'ok'}
+                except BaseException as e:      # noqa
+                    results[me] = {'out': 'exc', 'exc': type(e).__name__, 'msg': str(e).replace(w.scratch, '<scratch>')[:160]}
+            finally:
+                sys.settrace(None)
+                state['done'][me] = True
+                sems[1 - me].release()
+
+        ts = [threading.Thread(target=run, args=(i,), name='sim-caller-%d' % i) for i in (0, 1)]
+        for t in ts:
+            t.start()
+        sems[0].release()
+        for t in ts:
+            t.join(60)
+        if any(t.is_alive() for t in ts):
+            raise HarnessError('concurrent_writes: a caller thread did not finish')
+        r['parts'] = []
+        for i, p in enumerate(parts):
+            res = dict(results[i] or {'out': 'none'})
+            res['file'] = self._snap(os.path.join(self.scratch, p['path']))
+            r['parts'].append(res)
+        r['switches'] = state['k']
+
     def op_write(self, op, r):
         f = self.objs['file:' + op['fid']]
         path = os.path.join(self.scratch, op['path'])
